@@ -2,7 +2,7 @@ import PytezosModel.Proofs.InterpStack
 import PytezosModel.Proofs.InterpComb
 import PytezosModel.Proofs.InterpArith
 import PytezosModel.Proofs.InterpColl
-import PytezosModel.Proofs.InterpBytes
+import PytezosModel.Proofs.InterpContracts
 import PytezosModel.Michelson.Interp.Spec
 /-! Instructions without sub-programs: the mirror's pop/push sequences against the reference rules. -/
 namespace Interp
@@ -759,6 +759,25 @@ theorem step_refines (env : Env) (i : Instr) (pre st : List Val) (hr : Spec.step
   case HASH_KEY =>
     exact step_unop env pre st .HASH_KEY (Spec.unV env .HASH_KEY) (Impl.execUn env .HASH_KEY) (fun _ _ => rfl) rfl
       (fun _ => rfl) (execUn_eq env .HASH_KEY) hr
+  case ADDRESS =>
+    exact step_unop env pre st .ADDRESS (Spec.unV env .ADDRESS) (Impl.execUn env .ADDRESS) (fun _ _ => rfl) rfl (fun _ => rfl)
+      (execUn_eq env .ADDRESS) hr
+  case IMPLICIT_ACCOUNT =>
+    exact step_unop env pre st .IMPLICIT_ACCOUNT (Spec.unV env .IMPLICIT_ACCOUNT) (Impl.execUn env .IMPLICIT_ACCOUNT)
+      (fun _ _ => rfl) rfl (fun _ => rfl) (execUn_eq env .IMPLICIT_ACCOUNT) hr
+  case CONTRACT t ep =>
+    exact step_unop env pre st (.CONTRACT t ep) (Spec.unV env (.CONTRACT t ep)) (Impl.execUn env (.CONTRACT t ep))
+      (fun _ _ => rfl) rfl (fun _ => rfl) (execUn_eq env (.CONTRACT t ep)) hr
+  case SET_DELEGATE =>
+    exact step_unop env pre st .SET_DELEGATE (Spec.unV env .SET_DELEGATE) (Impl.execUn env .SET_DELEGATE)
+      (fun _ _ => rfl) rfl (fun _ => rfl) (execUn_eq env .SET_DELEGATE) hr
+  case EMIT tag t =>
+    exact step_unop env pre st (.EMIT tag t) (Spec.unV env (.EMIT tag t)) (Impl.execUn env (.EMIT tag t))
+      (fun _ _ => rfl) rfl (fun _ => rfl) (execUn_eq env (.EMIT tag t)) hr
+  case SELF ep t => simp [Impl.step, Spec.step, addrFromValue_eq]
+  case TRANSFER_TOKENS =>
+    exact step_ternop env pre st .TRANSFER_TOKENS (Spec.transferTokensV env) (Impl.execTransferTokens env) (fun _ _ _ _ => rfl) rfl
+      (fun a => rfl) (fun a b => rfl) (fun _ => rfl) (execTransferTokens_eq env) hr
   case PAIRN n => exact step_PAIRN env pre st n hr
   case UNPAIRN n => exact step_UNPAIRN env pre st n hr
   case GETN n => exact step_GETN env pre st n hr
